@@ -38,6 +38,24 @@ Proof. unfold sym_ok. rewrite !andb_true_iff. tauto. Qed.
 Lemma pred_ok_lower p : pred_ok p = true -> is_lower_word p = true.
 Proof. unfold pred_ok. rewrite !andb_true_iff. tauto. Qed.
 
+(* the lexical half of wf_tptp *)
+Lemma gterm_ok_lex t : gterm_ok t = true -> gterm_lex t = true.
+Proof. destruct t as [| | | | |[s| |]]; cbn; auto using sym_ok_lower. Qed.
+Lemma forallb_impl {A} (f g : A -> bool) l : (forall x, f x = true -> g x = true) ->
+  forallb f l = true -> forallb g l = true.
+Proof. intros H. rewrite !forallb_forall. auto. Qed.
+Lemma wf_tptp_lex F : wf_tptp F = true -> wf_lex F = true.
+Proof.
+  induction F as [a|g IH|c l IHl r IHr|q vs g IH]; cbn [wf_tptp wf_lex].
+  - destruct a as [| |p ts|t gs]; cbn [aformula_ok aformula_lex]; auto; rewrite !andb_true_iff.
+    + intros [Hp Hts]. split; [apply pred_ok_lower, Hp|]. revert Hts. apply forallb_impl, gterm_ok_lex.
+    + intros [[Ht Hn] Hgs]. repeat split; auto using gterm_ok_lex.
+      revert Hgs. apply forallb_impl. intros g. apply gterm_ok_lex.
+  - exact IH.
+  - rewrite !andb_true_iff. intros [H1 H2]. auto.
+  - rewrite !andb_true_iff. intros [[H1 H2] H3]. auto.
+Qed.
+
 (* ---------- what may follow ---------- *)
 (* after a term: anything but '(' ; after an atomic formula: neither '(' nor '=' nor '!=' *)
 Definition tfollow (R : list token) : Prop := match R with KLPar :: _ => False | _ => True end.
@@ -144,17 +162,17 @@ Proof.
     apply read_app_eq; [destruct o; reflexivity|destruct o; reflexivity|].
     eapply read_args_cons; [apply Al; [exact I|lia]|]. apply read_args_one. apply Ar; [exact I|lia].
 Qed.
-Lemma rdt_sterm t : sterm_ok t = true -> rdt (print_sterm t) (tff_of_sterm t).
+Lemma rdt_sterm t : sterm_lex t = true -> rdt (print_sterm t) (tff_of_sterm t).
 Proof.
-  destruct t as [s|c|x]; cbn [sterm_ok print_sterm tff_of_sterm]; intros Hok;
+  destruct t as [s|c|x]; cbn [sterm_lex print_sterm tff_of_sterm]; intros Hok;
     (split; [|split; cbn; auto]); intros n R HR Hn; cbn [List.length] in Hn; (destruct n as [|n]; [lia|]); cbn [app].
-  - apply read_const_eq; [apply sym_ok_lower, Hok|exact HR].
+  - apply read_const_eq; [exact Hok|exact HR].
   - apply read_const_eq; [apply (lower_suffix c SSymbol Hok)|exact HR].
   - apply read_var_eq. apply (upper_suffix x SSymbol Hok).
 Qed.
-Lemma rdt_gterm t : gterm_ok t = true -> rdt (print_gterm t) (tff_of_gterm t).
+Lemma rdt_gterm t : gterm_lex t = true -> rdt (print_gterm t) (tff_of_gterm t).
 Proof.
-  destruct t as [| |c|x|a|a]; cbn [gterm_ok print_gterm tff_of_gterm]; intros Hok.
+  destruct t as [| |c|x|a|a]; cbn [gterm_lex print_gterm tff_of_gterm]; intros Hok.
   - split; [|split; cbn; auto]. intros n R HR Hn. cbn [List.length] in Hn. destruct n as [|n]; [lia|].
     cbn [app]. apply read_const_eq; [reflexivity|exact HR].
   - split; [|split; cbn; auto]. intros n R HR Hn. cbn [List.length] in Hn. destruct n as [|n]; [lia|].
@@ -203,7 +221,7 @@ Proof.
   unfold print_cmp1. destruct l, rhs; destruct (is_eq_rel r); len; lia.
 Qed.
 
-Lemma rd_cmp1 l r rhs n R : gterm_ok l = true -> gterm_ok rhs = true -> follow R ->
+Lemma rd_cmp1 l r rhs n R : gterm_lex l = true -> gterm_lex rhs = true -> follow R ->
   2 * List.length (print_cmp1 l r rhs) + 1 <= n ->
   read_unit n (print_cmp1 l r rhs ++ R) = Some (tff_of_cmp1 l r rhs, R).
 Proof.
@@ -220,18 +238,18 @@ Proof.
   unfold print_cmp1, tff_of_cmp1.
   destruct l as [| |c|x|a|a]; destruct rhs as [| |c'|x'|b|b]; try exact (G n).
   - (* integer terms on both sides *)
-    cbn [gterm_ok] in Hl, Hr. intros Hn. destruct (is_eq_rel r) eqn:Er.
+    cbn [gterm_lex] in Hl, Hr. intros Hn. destruct (is_eq_rel r) eqn:Er.
     + norm. apply rd_eq; auto using rdt_iterm. len. lia.
     + norm. apply rd_pred2; auto using rdt_iterm; [destruct r; try discriminate; reflexivity ..|]. len. lia.
   - (* symbolic terms on both sides *)
-    cbn [gterm_ok] in Hl, Hr. intros Hn. destruct (is_eq_rel r) eqn:Er.
+    cbn [gterm_lex] in Hl, Hr. intros Hn. destruct (is_eq_rel r) eqn:Er.
     + norm. apply rd_eq; auto using rdt_sterm. len. lia.
     + exact (G n Hn).
 Qed.
 
 (* the tail of a chain: after an '&' *)
-Lemma rd_chain_tail : forall gs l g acc n R, gterm_ok l = true -> gterm_ok (gterm_of g) = true ->
-  forallb (fun g => gterm_ok (gterm_of g)) gs = true -> endf R ->
+Lemma rd_chain_tail : forall gs l g acc n R, gterm_lex l = true -> gterm_lex (gterm_of g) = true ->
+  forallb (fun g => gterm_lex (gterm_of g)) gs = true -> endf R ->
   2 * List.length (print_cmp1 l (grel g) (gterm_of g) ++ print_chain false (gterm_of g) gs) + 2 <= n ->
   read_chain n CAnd acc (print_cmp1 l (grel g) (gterm_of g) ++ print_chain false (gterm_of g) gs ++ R)
   = Some (tff_of_chain_from (TBin CAnd acc (tff_of_cmp1 l (grel g) (gterm_of g))) (gterm_of g) gs, R).
@@ -249,7 +267,7 @@ Proof.
 Qed.
 
 (* arguments of an atom *)
-Lemma rd_args : forall ts n R, ts <> [] -> forallb gterm_ok ts = true ->
+Lemma rd_args : forall ts n R, ts <> [] -> forallb gterm_lex ts = true ->
   2 * List.length (print_args ts) + 1 <= n ->
   read_args n (print_args ts ++ KRPar :: R) = Some (map tff_of_gterm ts, R).
 Proof.
@@ -264,11 +282,11 @@ Proof.
     eapply read_args_cons; [apply HT; [exact I|lia]|].
     apply IH; [discriminate|exact Hts|lia].
 Qed.
-Lemma rd_atom p ts n R : pred_ok p = true -> forallb gterm_ok ts = true -> follow R ->
+Lemma rd_atom p ts n R : is_lower_word p = true -> forallb gterm_lex ts = true -> follow R ->
   2 * List.length (print_atom p ts) + 1 <= n ->
   read_unit n (print_atom p ts ++ R) = Some (TPred p (map tff_of_gterm ts), R).
 Proof.
-  intros Hp Hts HR Hn. apply pred_ok_lower in Hp.
+  intros Hp Hts HR Hn.
   destruct ts as [|t ts]; cbn [print_atom] in *.
   - cbn [List.length app map] in *. do 2 (destruct n as [|n]; [lia|]).
     rewrite read_unit_atomic by exact I. unfold read_atomic.
@@ -323,8 +341,8 @@ Proof.
   - apply HU; auto.
 Qed.
 
-Lemma chain_claimF t g gs : gterm_ok t = true -> gterm_ok (gterm_of g) = true ->
-  forallb (fun g => gterm_ok (gterm_of g)) gs = true -> claimF (FAtomic (ACmp t (g :: gs))).
+Lemma chain_claimF t g gs : gterm_lex t = true -> gterm_lex (gterm_of g) = true ->
+  forallb (fun g => gterm_lex (gterm_of g)) gs = true -> claimF (FAtomic (ACmp t (g :: gs))).
 Proof.
   intros Ht Hg Hgs n R HR Hn. cbn [print_formula print_aformula print_chain tff_of_formula tff_of_aformula app] in *.
   destruct gs as [|g' gs].
@@ -338,11 +356,11 @@ Proof.
     cbn [token_eqb_conn]. apply rd_chain_tail; try assumption. len. lia.
 Qed.
 
-Theorem read_print F : wf_tptp F = true -> claimF F /\ (unitlike F = true -> claimU F).
+Theorem read_print F : wf_lex F = true -> claimF F /\ (unitlike F = true -> claimU F).
 Proof.
   induction F as [a|g IH|c l IHl r IHr|q vs g IH]; intros Hwf.
   - (* atomic *)
-    cbn [wf_tptp] in Hwf.
+    cbn [wf_lex] in Hwf.
     assert (U : unitlike (FAtomic a) = true -> claimU (FAtomic a)).
     { intros Hu n R HR Hn. cbn [print_formula tff_of_formula] in *.
       destruct a as [| |p ts|t gs]; cbn [print_aformula tff_of_aformula] in *.
@@ -354,9 +372,9 @@ Proof.
         rewrite read_unit_atomic by exact I. unfold read_atomic. rewrite read_const_fun.
         + destruct R as [|[] R]; cbn in HR; try contradiction; reflexivity.
         + reflexivity. + reflexivity. + apply follow_tfollow, HR.
-      - cbn [aformula_ok] in Hwf. apply andb_true_iff in Hwf. destruct Hwf as [Hp Hts].
+      - cbn [aformula_lex] in Hwf. apply andb_true_iff in Hwf. destruct Hwf as [Hp Hts].
         apply rd_atom; assumption.
-      - cbn [aformula_ok] in Hwf. rewrite !andb_true_iff in Hwf. destruct Hwf as [[Ht Hn0] Hgs].
+      - cbn [aformula_lex] in Hwf. rewrite !andb_true_iff in Hwf. destruct Hwf as [[Ht Hn0] Hgs].
         destruct gs as [|g [|g' gs]]; [discriminate| |discriminate].
         cbn in Hgs. rewrite andb_true_r in Hgs.
         cbn [print_chain app tff_of_chain_from] in *. rewrite app_nil_r in *.
@@ -369,12 +387,12 @@ Proof.
       apply U; [reflexivity|apply endf_follow, HR|lia].
     + intros n R HR Hn. destruct n as [|n]; [lia|]. apply unit_is_formula; [exact HR|].
       apply U; [reflexivity|apply endf_follow, HR|lia].
-    + cbn [aformula_ok] in Hwf. rewrite !andb_true_iff in Hwf. destruct Hwf as [[Ht Hn0] Hgs].
+    + cbn [aformula_lex] in Hwf. rewrite !andb_true_iff in Hwf. destruct Hwf as [[Ht Hn0] Hgs].
       destruct gs as [|g gs]; [discriminate|].
       cbn in Hgs. apply andb_true_iff in Hgs. destruct Hgs as [Hg Hgs].
       apply chain_claimF; assumption.
   - (* negation *)
-    cbn [wf_tptp] in Hwf. destruct (IH Hwf) as [HF HU].
+    cbn [wf_lex] in Hwf. destruct (IH Hwf) as [HF HU].
     assert (U : claimU (FNot g)).
     { intros n R HR Hn. cbn [print_formula tff_of_formula] in *. norm. len.
       destruct n as [|n]; [lia|]. rewrite read_unit_not.
@@ -384,7 +402,7 @@ Proof.
     intros n R HR Hn. destruct n as [|n]; [lia|]. apply unit_is_formula; [exact HR|].
     apply U; [apply endf_follow, HR|lia].
   - (* binary connective *)
-    cbn [wf_tptp] in Hwf. apply andb_true_iff in Hwf. destruct Hwf as [Hl Hr].
+    cbn [wf_lex] in Hwf. apply andb_true_iff in Hwf. destruct Hwf as [Hl Hr].
     destruct (IHl Hl) as [HFl HUl]. destruct (IHr Hr) as [HFr HUr].
     split; [|discriminate].
     intros n R HR Hn. cbn [print_formula tff_of_formula] in *. norm. len.
@@ -402,7 +420,7 @@ Proof.
     + rewrite RR by lia. reflexivity.
     + rewrite RR by lia. reflexivity.
   - (* quantifier *)
-    cbn [wf_tptp] in Hwf. rewrite !andb_true_iff in Hwf. destruct Hwf as [[Hne Hvs] Hg].
+    cbn [wf_lex] in Hwf. rewrite !andb_true_iff in Hwf. destruct Hwf as [[Hne Hvs] Hg].
     destruct (IH Hg) as [HF _].
     assert (U : claimU (FQ q vs g)).
     { intros n R HR Hn. cbn [print_formula tff_of_formula] in *. norm. len.
@@ -415,9 +433,11 @@ Proof.
     apply U; [apply endf_follow, HR|lia].
 Qed.
 
-Theorem tff_read_print F : wf_tptp F = true -> tff_read (print_formula F) = Some (tff_of_formula F).
+Theorem tff_read_print_lex F : wf_lex F = true -> tff_read (print_formula F) = Some (tff_of_formula F).
 Proof.
   intros Hwf. unfold tff_read. destruct (read_print F Hwf) as [HF _].
   pose proof (HF (2 * List.length (print_formula F) + 2) [] (or_introl eq_refl) (le_n _)) as H.
   rewrite app_nil_r in H. rewrite H. reflexivity.
 Qed.
+Theorem tff_read_print F : wf_tptp F = true -> tff_read (print_formula F) = Some (tff_of_formula F).
+Proof. intros H. apply tff_read_print_lex, wf_tptp_lex, H. Qed.
